@@ -18,7 +18,7 @@ VERIF_FAIL = re.compile(
     r"loop invariant|decreases not satisfied|could not prove termination|index out of bounds|"
     r"unreachable|failed to (prove|satisfy)|assert_by_compute|constructor of a datatype|"
     r"by\(compute.*\) failed|expression simplifies to false|not simplify to true|cannot show invariant holds|"
-    r"recursive function|possible (usize|isize|u\d+|i\d+)|proof block failed", re.I)
+    r"recursive function|possible (usize|isize|u\d+|i\d+)|proof block failed|failed to simplify|compute", re.I)
 RLIMIT = re.compile(r"resource limit|rlimit|timed? ?out|exceeded", re.I)
 
 
@@ -94,12 +94,38 @@ def run_unit(unit, cover=False, threads=4, rlimit=None, keep=True, skip=()):
     if rl:
         cmd += ["--rlimit", str(rl)]
     meta["cmd"] = " ".join(cmd)
-    try:
-        p = subprocess.run(cmd, capture_output=True, text=True, cwd=ROOT, timeout=3600)
-    except subprocess.TimeoutExpired:
-        res.status = "undecided"
-        res.reason = "verus timeout"
-        return res
+    compute_failed = {}
+    for _round in range(16):
+        try:
+            p = subprocess.run(cmd, capture_output=True, text=True, cwd=ROOT, timeout=3600)
+        except subprocess.TimeoutExpired:
+            res.status = "undecided"
+            res.reason = "verus timeout"
+            return res
+        # a failing by(compute_only) aborts Verus at the first such lemma: record it as failed, blank it, run again
+        cf = [b for b in split_errors(p.stderr) if b[0] == "error" and re.search(r"simplifies to false|failed to simplify", b[1])]
+        if not cf or not getattr(unit, "proof_obls", None):
+            break
+        lines_now = text.split("\n")
+        progressed = False
+        for (lvl, title, btxt) in cf:
+            for ln in block_lines(btxt, path):
+                # find the owning lemma
+                k = ln - 1
+                while k >= 0 and not re.match(r'\s*(?:pub )?proof fn (\w+)', lines_now[k]):
+                    k -= 1
+                if k >= 0:
+                    nm = re.match(r'\s*(?:pub )?proof fn (\w+)', lines_now[k]).group(1)
+                    if nm not in compute_failed:
+                        compute_failed[nm] = dict(kind="verif", title=title, text=btxt[:3000], lines=[ln], cover=False)
+                        lines_now[ln - 1] = "    // (obligation failed by exact evaluation; blanked to evaluate the remaining lemmas)"
+                        progressed = True
+                    break
+        if not progressed:
+            break
+        text = "\n".join(lines_now)
+        with open(path, "w") as f:
+            f.write(text)
     res.wall = time.time() - t0
     res.stderr = p.stderr
     try:
@@ -203,6 +229,48 @@ def run_unit(unit, cover=False, threads=4, rlimit=None, keep=True, skip=()):
                 d["status"] = "undecided"
             d["cover_hit"] = any(e["cover"] for e in errs)
             res.fns[key] = d
+    # named proof obligations of the unit (generated lemmas, e.g. one per constant)
+    obls = getattr(unit, "proof_obls", [])
+    if obls and not cover:
+        starts = [(i + 1, m_.group(1)) for i, l in enumerate(lines_text) for m_ in [re.match(r'\s*(?:pub )?(?:broadcast )?proof fn (\w+)', l)] if m_]
+        def owner(ln):
+            best = None
+            for (st, nm) in starts:
+                if st <= ln:
+                    best = nm
+            return best
+        err_by_lemma = {}
+        for e in errs_by_mod.get("", []):
+            for ln in e["lines"]:
+                nm = owner(ln)
+                if nm:
+                    err_by_lemma.setdefault(nm, []).append(e)
+                    break
+        pm = dict(file="(generated lemma)", header=None, mode="verify", fns=[], lines=[0, -1], label="proof obligations")
+        for ob in obls:
+            v = verdict.get(("", ob["name"]))
+            errs = err_by_lemma.get(ob["name"], [])
+            if ob["name"] in compute_failed:
+                errs = [compute_failed[ob["name"]]]
+                v = dict(success=False, time_us=0, rlimit=0)
+            if v is None:
+                st = "undecided" if res.status != "ok" or errs else "verified-trivially"
+            elif v["success"] and not errs:
+                st = "verified"
+            elif any(e["kind"] == "verif" for e in errs) or (not v["success"] and res.status == "ok" and not any(e["kind"] == "rlimit" for e in errs)):
+                st = "failed"
+            else:
+                st = "undecided"
+            fm = dict(fn=ob["name"], mode="verify", file=ob.get("file", ""), header=None, lines=ob.get("lines"), sha256=ob.get("sha256", ""),
+                      rules=[], props=list(ob.get("props", ())), tag=ob.get("descr", ""))
+            pm["fns"].append(fm)
+            res.fns[("lemmas", ob["name"])] = dict(status=st, time_us=(v or {}).get("time_us", 0), rlimit=(v or {}).get("rlimit", 0),
+                                                   errors=errs, cover_hit=True)
+        meta["modules"]["lemmas"] = pm
+        # errors already attributed to named obligations are not counted against the prelude
+        errs_by_mod[""] = [e for e in errs_by_mod.get("", []) if not any(owner(ln) in {o["name"] for o in obls} for ln in e["lines"])]
+        for ob in obls:
+            verdict.pop(("", ob["name"]), None)
     # unit lemmas / prelude proof fns (module ""): any failure there poisons the unit
     for e in errs_by_mod.get("", []):
         if e["kind"] == "verif":
